@@ -195,12 +195,14 @@ class _LinearMatrix_dense_forward_simple_covariance(_AbstractDistribution):
 
     def misfit(self, coordinates: _numpy.ndarray) -> float:
         if self.premultiplication:
-            return self.misfit_bounds(coordinates) + (
-                0.5
-                * (
-                    coordinates.T @ (self.GtG @ coordinates - 2 * self.Gtd0) + self.dtd
-                ).item()
-            )
+            quadratic_form = (
+                coordinates.T @ (self.GtG @ coordinates - 2 * self.Gtd0) + self.dtd
+            ).item()
+            if quadratic_form == -_numpy.inf:
+                # Only by overflow (points some 1e154 away, terms of mixed sign): the
+                # residual norm stands for +inf then, never for -inf
+                quadratic_form = _numpy.inf
+            return self.misfit_bounds(coordinates) + 0.5 * quadratic_form
         else:
             return (
                 self.misfit_bounds(coordinates)
@@ -277,12 +279,14 @@ class _LinearMatrix_dense_forward_dense_covariance(_AbstractDistribution):
 
     def misfit(self, coordinates: _numpy.ndarray) -> float:
         if self.premultiplication:
-            return self.misfit_bounds(coordinates) + (
-                0.5
-                * (
-                    coordinates.T @ (self.GtG @ coordinates - 2 * self.Gtd0) + self.dtd
-                ).item()
-            )
+            quadratic_form = (
+                coordinates.T @ (self.GtG @ coordinates - 2 * self.Gtd0) + self.dtd
+            ).item()
+            if quadratic_form == -_numpy.inf:
+                # Only by overflow (points some 1e154 away, terms of mixed sign): the
+                # residual norm stands for +inf then, never for -inf
+                quadratic_form = _numpy.inf
+            return self.misfit_bounds(coordinates) + 0.5 * quadratic_form
         else:
             return (
                 self.misfit_bounds(coordinates)
@@ -406,12 +410,14 @@ class _LinearMatrix_sparse_forward_simple_covariance(_AbstractDistribution):
 
     def misfit(self, coordinates: _numpy.ndarray) -> float:
         if self.premultiplication:
-            return self.misfit_bounds(coordinates) + (
-                0.5
-                * (
-                    coordinates.T @ (self.GtG @ coordinates - 2 * self.Gtd0) + self.dtd
-                ).item()
-            )
+            quadratic_form = (
+                coordinates.T @ (self.GtG @ coordinates - 2 * self.Gtd0) + self.dtd
+            ).item()
+            if quadratic_form == -_numpy.inf:
+                # Only by overflow (points some 1e154 away, terms of mixed sign): the
+                # residual norm stands for +inf then, never for -inf
+                quadratic_form = _numpy.inf
+            return self.misfit_bounds(coordinates) + 0.5 * quadratic_form
         elif self.use_mkl:
             return self.misfit_bounds(coordinates) + (
                 0.5
